@@ -130,7 +130,16 @@ def run_path(K, loader, decisions, opts):
     out = None
     call = None
     try:
-        call = K.setup(c)
+        try:
+            call = K.setup(c)
+        except PyExc as e:
+            # the pre-state builder ran real code that raised: allowed classes end the path silently
+            # (they are outside the precondition), anything else is an obligation failure
+            allowed = getattr(K, 'setup_may_raise', ())
+            if any(exc_allowed(loader, e.obj, n) for n in allowed):
+                raise PathEnd()
+            ctx.obligations.append(('setup-raises-only', list(ctx.pc), False, {'kind': 'raises-only', 'exc': e.obj.cls.name, 'site': e.obj.site}))
+            raise PathEnd()
         fv = call.fn if call.fn is not None else loader.find_function(K.target)
         args = ([call.self_obj] if call.self_obj is not None else []) + list(call.args)
         try:
